@@ -175,26 +175,26 @@ mutual
 theorem pv_rt {c : Codec} (L : CodecLaws c) : ∀ v : PV, pvStated v = true → pvClean v = true →
     pvDates c v = true → ∃ t, serializeWithin c v = .ok t ∧ readValue c t = some v
   | .str s, _, hc, _ => by
-    refine ⟨_, by simp [serializeWithin, valueInner, Out.map]; rfl, ?_⟩
+    refine ⟨_, by simp [serializeWithin, leafInner, Out.map]; rfl, ?_⟩
     simp only [pvClean] at hc
     simp [readValue, elemText_content, trimXml_of_edgeClean s hc]
   | .int i, hs, _, _ => by
-    refine ⟨_, by simp [serializeWithin, valueInner, Out.map]; rfl, ?_⟩
+    refine ⟨_, by simp [serializeWithin, leafInner, Out.map]; rfl, ?_⟩
     simp only [pvStated, Bool.and_eq_true, decide_eq_true_eq] at hs
     simp [readValue, elemText_content, L.int_clean, readIntText_show L i hs.1 hs.2]
   | .real r, hs, _, _ => by
-    refine ⟨_, by simp [serializeWithin, valueInner, Out.map]; rfl, ?_⟩
+    refine ⟨_, by simp [serializeWithin, leafInner, Out.map]; rfl, ?_⟩
     simp only [pvStated] at hs
     simp [readValue, elemText_content, L.f64_clean, L.f64_rt r hs]
   | .bool true, _, _, _ => ⟨.elem "true" [] [], by simp [serializeWithin], by simp [readValue]⟩
   | .bool false, _, _, _ => ⟨.elem "false" [] [], by simp [serializeWithin], by simp [readValue]⟩
   | .data d, _, _, _ => by
-    refine ⟨_, by simp [serializeWithin, valueInner, Out.map]; rfl, ?_⟩
+    refine ⟨_, by simp [serializeWithin, leafInner, Out.map]; rfl, ?_⟩
     simp [readValue, elemText_content, L.data_clean, L.data_rt]
   | .date d, _, _, hd => by
     simp only [pvDates, Option.isSome_iff_exists] at hd
     obtain ⟨s, hs⟩ := hd
-    refine ⟨_, by simp [serializeWithin, valueInner, Out.map, hs]; rfl, ?_⟩
+    refine ⟨_, by simp [serializeWithin, leafInner, Out.map, hs]; rfl, ?_⟩
     simp [readValue, elemText_content, L.date_clean d s hs, L.date_rt d s hs]
   | .arr xs, hs, hc, hd => by
     simp only [pvStated] at hs; simp only [pvClean] at hc; simp only [pvDates] at hd
@@ -240,16 +240,16 @@ theorem Out.isPanic_map {α β : Type} (f : α → β) (o : Out α) : (o.map f).
 
 mutual
 theorem pv_np (c : Codec) : ∀ v : PV, pvDates c v = true → (serializeWithin c v).isPanic = false
-  | .str _, _ => by simp [serializeWithin, valueInner, Out.map, Out.isPanic]
-  | .int _, _ => by simp [serializeWithin, valueInner, Out.map, Out.isPanic]
-  | .real _, _ => by simp [serializeWithin, valueInner, Out.map, Out.isPanic]
+  | .str _, _ => by simp [serializeWithin, leafInner, Out.map, Out.isPanic]
+  | .int _, _ => by simp [serializeWithin, leafInner, Out.map, Out.isPanic]
+  | .real _, _ => by simp [serializeWithin, leafInner, Out.map, Out.isPanic]
   | .bool true, _ => by simp [serializeWithin, Out.isPanic]
   | .bool false, _ => by simp [serializeWithin, Out.isPanic]
-  | .data _, _ => by simp [serializeWithin, valueInner, Out.map, Out.isPanic]
+  | .data _, _ => by simp [serializeWithin, leafInner, Out.map, Out.isPanic]
   | .date d, h => by
     simp only [pvDates, Option.isSome_iff_exists] at h
     obtain ⟨s, hs⟩ := h
-    simp [serializeWithin, valueInner, Out.map, Out.isPanic, hs]
+    simp [serializeWithin, leafInner, Out.map, Out.isPanic, hs]
   | .arr xs, h => by
     simp only [pvDates] at h
     simp [serializeWithin, Out.isPanic_map, pvs_np c xs h]
